@@ -1,5 +1,8 @@
 // World: qvector (C10; container for C11-C15)
 #include "wutil.h"
+#ifndef QSIM_STRUCT
+#define QSIM_STRUCT 1      // 0: this adapter is built without reading any private struct field (API-level oracles only)
+#endif
 #include <algorithm>
 extern "C" {
 #include "containers/qvector.h"
@@ -69,7 +72,7 @@ struct VecWorld : World {
     }
     void sut_destroy(Ctx &) override { if (q) { InSut s; q->free(q); } q = nullptr; }
     void sut_abandon() override { q = nullptr; }
-    void *sut_mutex() override { return q ? q->qmutex : nullptr; }
+    void *sut_mutex() override { return nullptr; }
     bool sut_user_lock() override { InSutLock s; q->lock(q); return true; }
     void sut_force_unlock() override { InSutLock s; q->unlock(q); }
     void sut_probe(Ctx &) override { InSut s; q->getat(q, 0, false); }
@@ -81,14 +84,18 @@ struct VecWorld : World {
         return R_ok(encs(got));
     }
     Result sut_apply(const Op &op, Ctx &x) override {
-        size_t n = q->num; int idx = index_of(op.a, n, mt); int api = op.d & 7; if (api > 2) api = 2;
+        size_t n = q->size(q); int idx = index_of(op.a, n, mt); int api = op.d & 7; if (api > 2) api = 2;
         switch (op.k) {
         case V_ADD: {
             Bytes v = value(op); CallerBuf vb(v); bool ok;
             const void *vp = (op.d & NULLDATA) ? nullptr : vb.p;
+#if QSIM_STRUCT
             size_t max0 = q->max;
+#endif
             { InSut s; ok = api == 0 ? q->addfirst(q, vp) : api == 1 ? q->addlast(q, vp) : q->addat(q, idx, vp); }
+#if QSIM_STRUCT
             if (ok && !mt && q->max != max0) x.st.add("probe.grew");
+#endif
             return ok ? R_ok() : R_fail();
         }
         case V_GET: {
@@ -132,7 +139,7 @@ struct VecWorld : World {
             bool newmem = op.d & NEWMEM;
             if (op.k == V_LOCKEDWALK) { InSutLock s; q->lock(q); }
             qvector_obj_t o; memset(&o, 0, sizeof o);
-            Bytes out; size_t cnt = 0, guard = q->num * 2 + 8; bool failed = false; int fired_seen = sim_fault_fired(), retries = 0;
+            Bytes out; size_t cnt = 0, guard = q->size(q) * 2 + 8; bool failed = false; int fired_seen = sim_fault_fired(), retries = 0;
             for (;;) {
                 bool more; { InSut s; more = q->getnext(q, &o, newmem); }
                 if (!more && newmem && sim_fault_fired() > fired_seen && retries < 1) { fired_seen = sim_fault_fired(); retries++; x.st.add("probe.walk_step_retried_after_enomem"); continue; }
@@ -174,11 +181,15 @@ struct VecWorld : World {
         return o;
     }
     void sut_struct(Ctx &x) override {
+#if !QSIM_STRUCT
+        (void)x; return;
+#else
         if (!q) return;
         if (q->num > q->max) x.fail("structure", "struct", "element count " + num((long long)q->num) + " exceeds capacity " + num((long long)q->max));
         if (q->objsize != (size_t)es) x.fail("structure", "struct", "element size changed from " + num(es) + " to " + num((long long)q->objsize));
         if ((q->data == nullptr) != (q->max == 0)) x.fail("structure", "struct", "buffer pointer and capacity disagree");
         x.st.add("struct.checks");
+#endif
     }
     std::string render(const Op &op) const override {
         char b[200];
